@@ -13,6 +13,9 @@ pub struct KeyCase {
     pub hash: HashId,
     pub levels: Vec<Level>,
     pub seed: SeedSpec,
+    /// Some(t): build the Seed through Seed::from([u8; 32]) with the bytes beyond n set to t
+    #[serde(default)]
+    pub seed_array_tail: Option<u8>,
 }
 
 const ALL_H: [u32; 6] = [2, 5, 10, 15, 20, 25];
@@ -28,9 +31,10 @@ fn key_case(budget: u64) -> BoxedStrategy<KeyCase> {
                 (0usize..4, 0usize..4),
                 proptest::collection::vec((0usize..4, 0usize..6), 0..8),
                 gen::seed_spec(),
+                proptest::option::weighted(0.25, any::<u8>()),
             )
         })
-        .prop_map(move |(hash, (wi, hi), rest, seed)| {
+        .prop_map(move |(hash, (wi, hi), rest, seed, seed_array_tail)| {
             let roots = [2u32, 5, 10, 15];
             let mut root = vec![(WS[wi], roots[hi])];
             gen::fit_budget(hash.n(), &mut root, budget, &roots);
@@ -38,7 +42,7 @@ fn key_case(budget: u64) -> BoxedStrategy<KeyCase> {
             for (w, h) in rest {
                 levels.push((WS[w], ALL_H[h]));
             }
-            KeyCase { hash, levels, seed }
+            KeyCase { hash, levels, seed, seed_array_tail }
         })
         .boxed()
 }
@@ -47,7 +51,11 @@ pub fn check_keys(c: &KeyCase) -> Verdict {
     let n = c.hash.n();
     let seed = c.seed.bytes(n);
     let m = Model::rfc(c.hash);
-    let (sk, pk) = match libapi::keygen(c.hash, &c.levels, &seed, None) {
+    let kg = match c.seed_array_tail {
+        Some(t) => libapi::keygen_seed_from_array(c.hash, &c.levels, &seed, t),
+        None => libapi::keygen(c.hash, &c.levels, &seed, None),
+    };
+    let (sk, pk) = match kg {
         Out::Ok(v) => v,
         o => {
             return fail(
@@ -83,9 +91,47 @@ pub fn check_keys(c: &KeyCase) -> Verdict {
     let ignored_test_like = c.hash == HashId::Sha256_256 && c.levels == vec![(1, 5), (1, 5)];
     let root = c.levels[0];
     pass(
-        format!("{}|L{}|rootW{}H{}|{}", c.hash.name(), c.levels.len(), root.0, root.1, match c.seed { SeedSpec::Random(_) => "seed-random", SeedSpec::Zero => "seed-zero", SeedSpec::Ones => "seed-ones", SeedSpec::SingleBit(_) => "seed-bit" }),
+        format!("{}|L{}|rootW{}H{}|{}|{}", c.hash.name(), c.levels.len(), root.0, root.1, if c.seed_array_tail.is_some() { "seed-from-array" } else { "seed-slice" }, match c.seed { SeedSpec::Random(_) => "seed-random", SeedSpec::Zero => "seed-zero", SeedSpec::Ones => "seed-ones", SeedSpec::SingleBit(_) => "seed-bit" }),
         !ignored_test_like,
     )
+}
+
+#[derive(Clone, Debug, Serialize, Deserialize)]
+pub struct ChildCase {
+    pub hash: HashId,
+    pub levels: Vec<Level>,
+    pub seed: u64,
+    pub counter: u64,
+}
+
+/// Child seed / identifier derivation at arbitrary parent leaves: the LMS public keys embedded in a
+/// released signature must be the model's derivation from (parent seed, parent I, parent q).
+pub fn check_child_derivation(c: &ChildCase) -> Verdict {
+    use crate::libapi::Cb;
+    let n = c.hash.n();
+    let m = Model::rfc(c.hash);
+    let seed = gen::expand(c.seed, n);
+    let blob = hss::private_key_blob(&c.levels, c.counter, &seed);
+    let sig = match libapi::sign(c.hash, b"child derivation", &blob, Cb::Accept, None).0 {
+        Out::Ok(s) => s,
+        o => return fail(sign_failure_key(c.hash, &c.levels, o.kind()), format!("sign {} {:?}", o.kind(), o.panic_msg())),
+    };
+    let parsed = match hss::parse_signature(&m, &sig, 8) {
+        Some(p) => p,
+        None => return fail("sig-unparseable", "released signature does not parse"),
+    };
+    let qs = hss::leaf_indices(&c.levels, c.counter as u128);
+    let seeds = hss::path_seeds(&m, &seed, &c.levels, &qs);
+    for i in 1..c.levels.len() {
+        let t = crate::refmodel::lms::tree(&m, c.levels[i].0, c.levels[i].1, &seeds[i].1, &seeds[i].0);
+        let want = crate::refmodel::lms::public_key_bytes(crate::refmodel::h_to_lms_type(c.levels[i].1), crate::refmodel::w_to_ots_type(c.levels[i].0), &seeds[i].1, t.root());
+        let (a, b) = parsed.pub_ranges[i - 1];
+        if sig[a..b] != want[..] {
+            let field = if sig[a + 8..a + 24] != want[8..24] { "I" } else { "root" };
+            return fail(format!("child-public-key {}", field), format!("level {} public key in the signature differs from the hash-sigs derivation at parent leaf {} ({} counter {}): {}", i, qs[i - 1], levels_str(&c.levels), c.counter, field));
+        }
+    }
+    pass(format!("{}|parent-h{}|q0{}", c.hash.name(), c.levels[0].1, if qs[0] >= 256 { ">=256" } else { "<256" }), true)
 }
 
 pub fn run(ctx: &Ctx) {
@@ -100,14 +146,29 @@ pub fn run(ctx: &Ctx) {
     for h in ALL_HASHES {
         for w in WS {
             for rh in [2u32, 5] {
-                grid.push(KeyCase { hash: h, levels: vec![(w, rh)], seed: SeedSpec::Random(1) });
+                grid.push(KeyCase { hash: h, levels: vec![(w, rh)], seed: SeedSpec::Random(1), seed_array_tail: if rh == 2 { Some(0xa5) } else { None } });
                 let mut l8 = vec![(w, rh)];
                 for k in 0..7 {
                     l8.push((WS[(k + w as usize) % 4], ALL_H[(k + rh as usize) % 6]));
                 }
-                grid.push(KeyCase { hash: h, levels: l8, seed: SeedSpec::Zero });
+                grid.push(KeyCase { hash: h, levels: l8, seed: SeedSpec::Zero, seed_array_tail: None });
             }
         }
     }
     ctx.enumerate("grid", grid.len() as u64, true, |i| grid[i as usize].clone(), check_keys);
+    // child derivation below every region of a tall parent tree (leaf index bytes 0 and 1)
+    let mut ch: Vec<ChildCase> = Vec::new();
+    let hs: Vec<HashId> = if ctx.quick() { vec![HashId::Sha256_128, HashId::Shake256_192, HashId::Sha256_256] } else { ALL_HASHES.to_vec() };
+    for (hi, h) in hs.iter().enumerate() {
+        for (si, shape) in [vec![(2u32, 10u32), (4u32, 2u32)], vec![(4, 10), (8, 2), (4, 2)], vec![(4, 2), (2, 10), (8, 2)]].iter().enumerate() {
+            if ctx.quick() && (hi + si) % 2 == 1 {
+                continue;
+            }
+            let below: u64 = 1u64 << shape.iter().skip_while(|l| l.1 != 10).skip(1).map(|l| l.1).sum::<u32>();
+            for q in [0u64, 1, 255, 256, 257, 300, 511, 512, 767, 1023] {
+                ch.push(ChildCase { hash: *h, levels: shape.clone(), seed: q + si as u64, counter: q * below + (q % below) });
+            }
+        }
+    }
+    ctx.enumerate("child_derivation", ch.len() as u64, false, |i| ch[i as usize].clone(), check_child_derivation);
 }
